@@ -59,6 +59,7 @@ enum { VS_EMPTY = 0, VS_SHORT = 1, VS_1K = 2, VS_70K = 3, VS_1M = 4 };
 size_t kv_vlen(int sz);
 void kv_vgen(unsigned char *buf, int vid, int sz);   /* fills kv_vlen(sz) bytes */
 int kv_vcheck(const void *data, size_t len, int vid, int sz); /* 1 if equal */
+int kv_vparse(const void *data, size_t len, int *vid, int *sz, unsigned char *scratch);
 
 /* ---------------- model ---------------- */
 
@@ -147,6 +148,21 @@ int ko_held_iters(khist_t *h);         /* every held iterator re-walked */
 /* "leveldb.sstables" -> file numbers + levels; directory == live files check (C13 b) */
 int kv_parse_sstables(ldb_t *db, uint64_t *nums, int *levels, int max);
 int kv_files_exact_check(ldb_t *db, const char *dbdir, char *err, size_t en);
+
+typedef struct kobs_s {
+  int open_rc;
+  uint32_t U;                /* marker bitmap (by ack index) */
+  uint32_t alien_markers;
+  kmodel_t m;                /* observed user-key contents */
+  int bad;                   /* scan/get inconsistency, alien key or value */
+  int garbage;               /* directory != live files after recovery */
+  char err[400];
+  uint64_t hash;
+} kobs_t;
+
+/* read everything back (gets of user keys and of the marker of every recorded batch, plus a
+ * full scan that must agree); fills U (bit i = batch acks[i] present) and the observed model */
+void kv_observe(ldb_t *db, const kack_t *acks, int nacks, kobs_t *o);
 
 /* reference cursor for C07 */
 enum { CU_FIRST = 0, CU_LAST, CU_NEXT, CU_PREV, CU_SEEK, CU_GE, CU_GT, CU_LE, CU_LT, CU_NCALLS };
